@@ -260,7 +260,7 @@ EXC_PARENTS = {
 
 
 class Evaluator:
-    MAX_PATHS = 4096
+    MAX_PATHS = 600
     MAX_DEPTH = 8
 
     def __init__(self, project: Project, models: Optional[Dict[str, Callable]] = None, method_models=None,
@@ -275,9 +275,14 @@ class Evaluator:
         self.assume_false = tuple(assume_false)  # unknown conditions whose text contains one of these are taken as False
         self.inline = inline
         self.events: List[tuple] = []
+        self.sticky: List[tuple] = []  # label-inspection events, kept across paths and across aborted paths
         self.decisions: List[tuple] = []
         self._prefix: List[bool] = []
         self._depth = 0
+
+    def _label(self, ev):
+        self.events.append(ev)
+        self.sticky.append(ev)
 
     # ------------------------------------------------------------------ path enumeration
     def run_paths(self, fi: FuncInfo, make_args: Callable[[], dict], body: Optional[List[ast.stmt]] = None) -> List[Outcome]:
@@ -590,7 +595,7 @@ class Evaluator:
         if isinstance(it, str):
             return list(it)
         if isinstance(it, (Sym, Text)):
-            self.events.append(("label-iterated", it, node))
+            self._label(("label-iterated", it, node))
             raise Unmodelled(f"iteration over the characters of the label {it!r}", node)
         if isinstance(it, _Iter):
             return list(it.items)
@@ -914,6 +919,7 @@ class Evaluator:
             if isinstance(l, str) and isinstance(r, str):
                 return l + r
             if isinstance(l, (str, Sym, Text)) and isinstance(r, (str, Sym, Text)):
+                self._label(("label-concat", l, r, node))
                 return Text(_parts(l) + _parts(r))
             if isinstance(l, list) and isinstance(r, list):
                 return l + r
@@ -1061,7 +1067,7 @@ class Evaluator:
                 return v if isinstance(op, ast.In) else not v
             if isinstance(r, (str, Text, Sym)) and isinstance(l, (str, Text, Sym)):
                 if isinstance(r, (Text, Sym)) or isinstance(l, (Text, Sym)):
-                    self.events.append(("label-substring", l, r, node))
+                    self._label(("label-substring", l, r, node))
                 return TOP
             if isinstance(r, (BoundMethod, ExtRef)):
                 return TOP
@@ -1087,7 +1093,7 @@ class Evaluator:
         if isinstance(l, str) and isinstance(r, str):
             return {ast.Lt: l < r, ast.LtE: l <= r, ast.Gt: l > r, ast.GtE: l >= r}[type(op)]
         if isinstance(l, (Sym, Text)) or isinstance(r, (Sym, Text)):
-            self.events.append(("label-ordered", l, r, node))
+            self._label(("label-ordered", l, r, node))
         return TOP
 
     def e_Yield(self, e, env, fi):
@@ -1168,7 +1174,7 @@ class Evaluator:
                             raise Raised("TypeError", e, f"got multiple values for keyword argument '{kname}'")
                         kwargs[kname] = vv
                         if isinstance(kk, Sym):
-                            self.events.append(("label-as-keyword", kk, e))
+                            self._label(("label-as-keyword", kk, e))
                 elif d is TOP:
                     kwargs["**"] = TOP
                 else:
@@ -1412,7 +1418,7 @@ class Evaluator:
                 return TOP
             return TOP
         if isinstance(recv, (Sym, Text)):
-            self.events.append(("label-method", recv, name, args, node))
+            self._label(("label-method", recv, name, args, node))
             return TOP
         if isinstance(recv, Raised):
             return TOP
@@ -1482,7 +1488,7 @@ class Evaluator:
                 f = self.method_models.get((x.kind, "__len__"))
                 return f(self, x, [], {}, node) if f else TOP
             if isinstance(x, (Sym, Text)):
-                self.events.append(("label-len", x, node))
+                self._label(("label-len", x, node))
                 return TOP
             return TOP
         if name in ("list", "tuple", "set", "frozenset"):
@@ -1536,7 +1542,7 @@ class Evaluator:
         if name == "sorted":
             items = self.iterate(args[0], node)
             if any(isinstance(x, (Sym, Text)) for x in items) and len(items) > 1:
-                self.events.append(("label-ordered", items, None, node))
+                self._label(("label-ordered", items, None, node))
                 return TOP
             try:
                 return sorted(items)
